@@ -320,13 +320,20 @@ import (
 //@ func doesRoleExist
 //@   results index, exist
 //@   requires roles != nil
-//@   ensures exist ==> 0 <= index && index < len(roles.Roles) && seq(roles.Roles[index]) == seq(role)
-//@   ensures !exist ==> index == 0 - 1
+//@   loop 0 invariant forall(k, int, 0 <= k && k <= rangeindex ==> seq(roles.Roles[k]) != seq(role))
+//@   ensures exist ==> 0 <= index && index < len(roles.Roles) && seq(roles.Roles[index]) == seq(role) && forall(k, int, 0 <= k && k < index ==> seq(roles.Roles[k]) != seq(role))
+//@   ensures !exist ==> index == 0 - 1 && labsent(list(roles.Roles), seq(role))
 
+// deleteRoles removes the first occurrence of every listed role; on a duplicate-free list (the
+// system-contract discipline of C15) none of the listed roles remains afterwards.
 //@ func deleteRoles
-//@   requires roles != nil
-//@   loop 0 invariant frame(roles) && frame(roles.Roles) && arr(roles.Roles) == old(arr(roles.Roles))
-//@   ensures arr(roles.Roles) == old(arr(roles.Roles))
+//@   requires roles != nil && (roles.Roles == nil || arr(roles.Roles) != arr(deleteRoles))
+//@   loop 0 invariant frame(roles) && frame(roles.Roles) && arr(roles.Roles) == old(arr(roles.Roles)) && len(roles.Roles) <= old(len(roles.Roles))
+//@   loop 0 invariant old(lnodup(list(roles.Roles))) ==> lnodup(list(roles.Roles))
+//@   loop 0 invariant old(lnodup(list(roles.Roles))) ==> forall(t, int, trigger(seq(deleteRoles[t])), 0 <= t && t <= rangeindex ==> labsent(list(roles.Roles), seq(deleteRoles[t])))
+//@   loop 0 assert list(roles.Roles) == atHeader(list(roles.Roles)) || (exist && 0 <= index && index < llen(atHeader(list(roles.Roles))) && list(roles.Roles) == lremove(atHeader(list(roles.Roles)), index) && lnth(atHeader(list(roles.Roles)), index) == seq(deleteRole))
+//@   ensures arr(roles.Roles) == old(arr(roles.Roles)) && len(roles.Roles) <= old(len(roles.Roles))
+//@   ensures[C03,C07,C15] old(lnodup(list(roles.Roles))) ==> lnodup(list(roles.Roles)) && forall(t, int, 0 <= t && t < len(deleteRoles) ==> labsent(list(roles.Roles), seq(deleteRoles[t])))
 //@   modifies roles.Roles, elems(roles.Roles)
 
 //@ func (e *esdtRoles) CheckAllowedToExecute
@@ -345,6 +352,7 @@ import (
 //@   ensures[C17] err == nil ==> failed == old(failed)
 //@   ensures[C03] err == nil ==> seq(vmInput.CallerAddr) == ESDTSC()
 //@   ensures[C02,C03,C05] err == nil ==> onlyChanged(St, old(St), dst, Krole(tok))
+//@   ensures[C03,C15] err == nil && !readFailed && !e.set && rolesNoDup(old(St), dst, tok) ==> rolesNoDup(St, dst, tok) && forall(t, int, trigger(seq(vmInput.Arguments[t])), 1 <= t && t < len(vmInput.Arguments) ==> !hasRole(St, dst, tok, seq(vmInput.Arguments[t])))
 //@   ensures[C03] err == nil && !readFailed && e.set ==> llen(dRoles(St[dst][Krole(tok)])) == ite(len(old(St)[dst][Krole(tok)]) == 0, 0, llen(dRoles(old(St)[dst][Krole(tok)]))) + len(vmInput.Arguments) - 1 && forall(i, int, 1 <= i && i < len(vmInput.Arguments) ==> lnth(dRoles(St[dst][Krole(tok)]), llen(dRoles(St[dst][Krole(tok)])) - len(vmInput.Arguments) + i) == seq(vmInput.Arguments[i]))
 //@   modifies St, failed, readFailed
 
@@ -365,6 +373,7 @@ import (
 
 //@ func (e *esdtNFTCreateRoleTransfer) deleteCreateRoleFromAccount
 //@   requires e != nil && !isNil(e.marshalizer) && !isNil(acntDst)
+//@   ensures[C07,C15] err == nil && !readFailed && (len(old(St)[addr(acntDst)][seq(esdtTokenRoleKey)]) == 0 || lnodup(dRoles(old(St)[addr(acntDst)][seq(esdtTokenRoleKey)]))) ==> len(St[addr(acntDst)][seq(esdtTokenRoleKey)]) == 0 || (lnodup(dRoles(St[addr(acntDst)][seq(esdtTokenRoleKey)])) && labsent(dRoles(St[addr(acntDst)][seq(esdtTokenRoleKey)]), "ESDTRoleNFTCreate"))
 //@   ensures[C17] err == nil ==> failed == old(failed)
 //@   ensures[C05] onlyChanged(St, old(St), addr(acntDst), seq(esdtTokenRoleKey))
 //@   ensures old(readFailed) ==> readFailed
@@ -374,8 +383,8 @@ import (
 //@   requires e != nil && !isNil(e.marshalizer) && !isNil(acntDst)
 //@   ensures[C17] err == nil ==> failed == old(failed)
 //@   ensures[C07] err == nil && !readFailed ==> len(St[addr(acntDst)][seq(esdtTokenRoleKey)]) != 0
-//@   ensures[C07] err == nil && !readFailed && St == old(St) ==> lcontains(dRoles(St[addr(acntDst)][seq(esdtTokenRoleKey)]), "ESDTRoleNFTCreate")
-//@   ensures[C07] err == nil && !readFailed && St != old(St) ==> lcontains(dRoles(St[addr(acntDst)][seq(esdtTokenRoleKey)]), "ESDTRoleNFTCreate")
+//@   ensures[C07] err == nil && !readFailed && St == old(St) ==> !labsent(dRoles(St[addr(acntDst)][seq(esdtTokenRoleKey)]), "ESDTRoleNFTCreate")
+//@   ensures[C07] err == nil && !readFailed && St != old(St) ==> !labsent(dRoles(St[addr(acntDst)][seq(esdtTokenRoleKey)]), "ESDTRoleNFTCreate")
 //@   ensures[C05] onlyChanged(St, old(St), addr(acntDst), seq(esdtTokenRoleKey))
 //@   ensures old(readFailed) ==> readFailed
 //@   modifies St, failed, readFailed
@@ -394,9 +403,10 @@ import (
 //@   ensures[C17] err == nil ==> failed == old(failed)
 //@   ensures[C03] err == nil ==> isNil(acntSnd)
 //@   ensures[C07] err == nil && seq(vmInput.CallerAddr) == ESDTSC() && dst != nxt ==> len(St[dst][Knonce(tok)]) == 0
+//@   ensures[C07,C03,C15] err == nil && !readFailed && seq(vmInput.CallerAddr) == ESDTSC() && dst != nxt && rolesNoDup(old(St), dst, tok) ==> !hasRole(St, dst, tok, "ESDTRoleNFTCreate")
 //@   ensures[C07,C10] err == nil && seq(vmInput.CallerAddr) == ESDTSC() ==> seq(out.OutputAccounts[nxt].OutputTransfers[0].Data) == ((("ESDTNFTCreateRoleTransfer" + "@") + hex(tok)) + "@") + hex(be(c))
-//@   ensures[C07] err == nil && !readFailed && seq(vmInput.CallerAddr) == ESDTSC() && shardOf(nxt) == selfShard ==> St[nxt][Knonce(tok)] == be(c) && len(St[nxt][Krole(tok)]) != 0 && lcontains(dRoles(St[nxt][Krole(tok)]), "ESDTRoleNFTCreate")
-//@   ensures[C07] err == nil && !readFailed && seq(vmInput.CallerAddr) != ESDTSC() ==> St[dst][Knonce(tok)] == be(beval(nxt) % 18446744073709551616) && len(St[dst][Krole(tok)]) != 0 && lcontains(dRoles(St[dst][Krole(tok)]), "ESDTRoleNFTCreate")
+//@   ensures[C07] err == nil && !readFailed && seq(vmInput.CallerAddr) == ESDTSC() && shardOf(nxt) == selfShard ==> St[nxt][Knonce(tok)] == be(c) && len(St[nxt][Krole(tok)]) != 0 && !labsent(dRoles(St[nxt][Krole(tok)]), "ESDTRoleNFTCreate")
+//@   ensures[C07] err == nil && !readFailed && seq(vmInput.CallerAddr) != ESDTSC() ==> St[dst][Knonce(tok)] == be(beval(nxt) % 18446744073709551616) && len(St[dst][Krole(tok)]) != 0 && !labsent(dRoles(St[dst][Krole(tok)]), "ESDTRoleNFTCreate")
 //@   ensures[C02,C05,C07] err == nil ==> forall(a, addr, k, bseq, !((a == dst || (a == nxt && seq(vmInput.CallerAddr) == ESDTSC() && shardOf(nxt) == selfShard)) && (k == Knonce(tok) || k == Krole(tok))) ==> St[a][k] == old(St)[a][k])
 //@   modifies St, failed, readFailed, loadFailed
 
